@@ -142,8 +142,7 @@ ZONES = st.sampled_from(["UTC", "UTC", "UTC", "Asia/Jerusalem", "America/New_Yor
 def common(kind, args_strategy, extra=None):
     def mk(a, dev_id, key, sess, ts, salt, zone):
         c = {"kind": kind, "args": a, "device_id": dev_id, "key": key, "session": sess, "ts": ts, "salt": salt}
-        if kind == "create_schedule":
-            c["zone"] = zone
+        c["zone"] = zone        # the host zone matters for create_schedule only; every other frame must not depend on it
         if extra:
             c.update(extra)
         return c
@@ -155,6 +154,23 @@ C02_KINDS = ops.KINDS1 + ["stop", "set_position", "get_shutter_state"]
 
 def strat_accept(kind):
     return lambda: common(kind, gen.op_args(kind))
+
+
+def strat_schedule_dst():
+    """create_schedule called on the day before / of / after a UTC-offset change of the host zone."""
+    from .c10 import date_pool
+    pool = [t for t in date_pool("quick") if t[0] != "UTC"]
+
+    def for_date(t):
+        z, (y, mo, d), near = t
+        def mk(a, dev_id, key, sess, now_s, salt):
+            naive = dt.datetime(y, mo, d, now_s // 3600, now_s // 60 % 60, now_s % 60)
+            ts = int(naive.replace(tzinfo=vclock.zone(z)).timestamp())
+            return {"kind": "create_schedule", "args": a, "device_id": dev_id, "key": key, "session": sess, "ts": ts, "salt": salt,
+                    "zone": z, "near": near}
+        return st.builds(mk, gen.op_args("create_schedule"), gen.device_ids, gen.keys_int, gen.sessions,
+                         st.sampled_from([30, 3 * 3600 + 15, 43200, 86370]), st.integers(1, 200))
+    return st.sampled_from(pool).flatmap(for_date)
 
 
 def strat_reject(why):
@@ -236,6 +252,8 @@ def subchecks(tier):
     shards = 16 if big else 1
     subs = [Sub(f"accept/{k}", body_accept, strategy=strat_accept(k), n=n if k not in ("get_state", "get_schedules", "stop", "get_shutter_state") else n // 5,
                 shards=shards) for k in C02_KINDS]
+    subs.append(Sub("accept/create_schedule@dst-days", lambda rep, case: body_accept(rep, case, "accept/create_schedule@dst-days"),
+                    strategy=strat_schedule_dst, n=n, shards=shards))
     subs += [Sub(f"reject/{w}", body_reject, strategy=strat_reject(w), n=n // 2, shards=shards) for w in REJECTS]
     subs.append(Sub("sweep/create_schedule", body_sweep, cases=cases_sweep(tier), shards=16, exhaustive=big))
     subs.append(Sub("sweep/small-domains", lambda rep, case: body_accept(rep, case, "sweep/small-domains"), cases=cases_small,
